@@ -329,6 +329,7 @@ func runC19(c *Ctx) {
 
 	c19Close(c)
 	c19Table(c)
+	c19Process(c)
 	c19NoNestedLock(c)
 }
 
@@ -1083,4 +1084,57 @@ func c19NoNestedLock(c *Ctx) {
 			"a function holding Watcher.mu never calls one that acquires it", "recursive read lock: a Subscribe arriving during a notification deadlocks the watcher")
 	}
 	c.R.Check(len(holders) >= 3, "R-C19-1", "netstate:lock-holders", "", "", fmt.Sprintf("%d function(s) acquire Watcher.mu", len(holders)), ">= 3 (Subscribe, notify, close)", "anchor-missing")
+}
+
+
+// c19Process (R-C19-6): process() turns every link message whose operational
+// state is recognised into exactly one change of that interface, in message
+// order: an iteration on which operStateChange reported ok appends once to
+// changes[name]. (A "coalescing" filter that skips states already seen in the
+// batch drops the third event of up, down, up.)
+func c19Process(c *Ctx) {
+	if c.P.Cfg.GOOS != "linux" {
+		return
+	}
+	pr := c.needFunc("R-C19-6", "internal/netstate", "process")
+	if pr == nil {
+		return
+	}
+	fn := c.fname(pr)
+	n, bad := 0, ""
+	for _, p := range c.pathsO("R-C19-6", pr, an.PathOpts{EmitCut: true}) {
+		if !p.Cut {
+			continue
+		}
+		calls := callsOnPath(p, func(cc *ssa.CallCommon) bool { return an.CallIs(cc, PkgNet, "", "operStateChange") })
+		if len(calls) != 1 {
+			continue
+		}
+		// recognised on this path?
+		recognised := false
+		cv, _ := calls[0].(ssa.Value)
+		for _, a := range p.Atoms {
+			e := a.Cond
+			if e.Op == an.OpExtract && e.Idx == 1 && len(e.Args) == 1 && e.Args[0].V == cv {
+				recognised = a.Pos
+			}
+		}
+		if !recognised {
+			continue
+		}
+		n++
+		upd := 0
+		p.Instrs(func(in ssa.Instruction) {
+			if mu, ok := in.(*ssa.MapUpdate); ok {
+				if v := p.Of(mu.Value); v.Op == an.OpAppend {
+					upd++
+				}
+			}
+		})
+		if upd != 1 {
+			bad = fmt.Sprintf("a recognised link message leads to %d appends (%s)", upd, atomsString(p))
+		}
+	}
+	c.R.Check(n >= 1 && bad == "", "R-C19-6", fn+":every-recognised-state-recorded", fn, c.pos(pr.Pos()), fmt.Sprintf("%d iteration path(s) with a recognised state; %s", n, bad),
+		"each link message with a recognised operational state appends exactly one change for its interface", "a change that occurred is not delivered (e.g. a state that recurs within one batch)")
 }
